@@ -90,15 +90,55 @@ Definition emit_literal_block (level : Z) (v : str) : str :=
   (if ends_with_ch v 10 then [124] else [124; 45])
   ++ flat_map (fun line => 10 :: indent (level + 1) ++ line) (rust_lines v).
 
+(* str::trim_start_matches('\n') *)
+Fixpoint trim_start_lf (s : str) : str :=
+  match s with c :: r => if N.eqb c 10 then trim_start_lf r else s | [] => [] end.
+(* str::ends_with("\n\n") *)
+Definition ends_with_2lf (s : str) : bool := match rev s with 10 :: 10 :: _ => true | _ => false end.
+(* the closure `|line| line.starts_with("---") || line.starts_with("...")` over the generated prefix list *)
+Definition marker_like (line : str) : bool := existsb (fun p => has_prefix p line) lit_root_bad_prefixes.
+
+(* YamlEmitter::is_literal_block (self.multiline_strings, self.level; the guards present in the source are the
+   generated flags lit_guard_*: without them this is the condition emit_node used to test in line) *)
+Definition is_literal_block (multiline : bool) (level : Z) (v : str) : bool :=
+  if negb (multiline && contains_ch v 10 && is_valid_literal_block_scalar v) then false
+  else if lit_guard_content && (let content := trim_start_lf v in is_nil content || starts_with_ch content 32) then false
+  else if lit_guard_tail && ends_with_2lf v then false
+  else if lit_guard_root && (level <? 0)%Z
+       then forallb (fun c => negb (starts_with_ch v c)) lit_root_bad_start
+            && negb (existsb marker_like (rust_lines v))
+  else true.
+
 Definition emit_string (multiline : bool) (level : Z) (v : str) : str :=
-  if multiline && contains_ch v 10 && is_valid_literal_block_scalar v then emit_literal_block level v
+  if is_literal_block multiline level v then emit_literal_block level v
   else if need_quotes v then escape_str v
   else v.
+
+(* str::len(): the length in bytes of the UTF-8 encoding *)
+Definition utf8_len_ch (c : N) : N := if c <? 128 then 1 else if c <? 2048 then 2 else if c <? 65536 then 3 else 4.
+Definition utf8_len (s : str) : N := fold_right (fun c a => utf8_len_ch c + a) 0 s.
+Definition str_len (s : str) : N := N.of_nat (length s).          (* str::chars().count() *)
+
+(* is_long_key (emitter.rs; `escape_str` into a String never fails).  usize arithmetic is not modelled: the
+   subtraction and the division are on constants *)
+Definition is_long_key (s : str) : bool :=
+  if utf8_len s <=? (emit_key_max - emit_key_quotes) / emit_key_esc_max then false
+  else if need_quotes s then emit_key_max <? str_len (escape_str s)
+  else emit_key_max <? str_len s.
 
 Definition is_collection (n : node) : bool := match n with NSeq _ | NMap _ => true | _ => false end.
 
 Section Layout.
 Variables compact multiline : bool.
+
+(* `complex_key` of emit_mapping, evaluated at the level of the mapping's entries: collections, and the string keys
+   that are emitted as a literal block or are too long for an implicit key (where the source says so) *)
+Definition complex_key (level : Z) (k : node) : bool :=
+  match k with
+  | NSeq _ | NMap _ => true
+  | NStr s => (key_explicit_literal && is_literal_block multiline level s) || (key_explicit_long && is_long_key s)
+  | _ => false
+  end.
 
 (* mode None = emit_node; mode (Some inline) = emit_val(inline, _): what precedes a value after "-", "?" or ":" *)
 Definition val_prefix (mode : option bool) (level : Z) (empty : bool) : str :=
@@ -137,7 +177,7 @@ Fixpoint emit (mode : option bool) (level : Z) (n : node) {struct n} : str :=
            | [] => []
            | (k, x) :: r =>
                (if first then [] else 10 :: indent (level + 1))
-               ++ (if is_collection k
+               ++ (if complex_key (level + 1) k
                    then [63] ++ emit (Some true) (level + 1) k ++ 10 :: indent (level + 1) ++ [58]
                         ++ emit (Some true) (level + 1) x
                    else emit None (level + 1) k ++ [58] ++ emit (Some false) (level + 1) x)
@@ -155,8 +195,9 @@ Definition emit_mapping (level : Z) (h : list (node * node)) : str := emit None 
 Definition dump_doc (doc : node) : str := [45; 45; 45; 10] ++ emit_node (-1) doc.
 End Layout.
 
-(* the longest text of a scalar mapping key, as emitted (implicit keys are limited to 1024 characters by the
-   loader: known finding G1) *)
+(* the longest text of a mapping key that is written in the implicit form `key: value` (the loader accepts at most
+   SIMPLE_KEY_MAX = 1024 characters there; keys in the explicit form `? key` are not limited).  complex_key does
+   not depend on the level as long as it is not negative, and the entries of a mapping are at level >= 0. *)
 Fixpoint max_key_len (multiline : bool) (n : node) {struct n} : N :=
   match n with
   | NSeq v => (fix go (l : list node) : N := match l with [] => 0 | x :: r => N.max (max_key_len multiline x) (go r) end) v
@@ -165,7 +206,7 @@ Fixpoint max_key_len (multiline : bool) (n : node) {struct n} : N :=
          match l with
          | [] => 0
          | (k, x) :: r =>
-             N.max (if is_collection k then max_key_len multiline k
+             N.max (if complex_key multiline 0 k then max_key_len multiline k
                     else N.of_nat (length (emit true multiline None 0 k)))
                    (N.max (max_key_len multiline x) (go r))
          end) h
@@ -173,8 +214,8 @@ Fixpoint max_key_len (multiline : bool) (n : node) {struct n} : N :=
   end.
 
 (* ---------------- the round trip through the model of the loading pipeline (scanner, parser, loader) -----------
-   Used to STATE the full property (EmitterProofs.v: C09_full), to refute it on the recorded defect classes by
-   evaluation, and — extracted — to compare the verdict of the whole model pipeline with the implementation's. *)
+   Used to STATE the full property (EmitterProofs.v: C09_full), to evaluate it on examples, and -- extracted -- to
+   compare the verdict of the whole model pipeline with the implementation's. *)
 Require Import Loader PipeL.
 
 Fixpoint to_yaml (n : node) : yaml :=
@@ -192,14 +233,29 @@ Fixpoint to_yaml (n : node) : yaml :=
 Definition is_usv (v : N) : bool := (v <? 55296) || ((57343 <? v) && (v <=? 1114111)).
 Fixpoint keys_distinct (l : list yaml) : bool :=
   match l with [] => true | k :: r => negb (existsb (yaml_eqb k) r) && keys_distinct r end.
+(* what Rust's number formatting produces for a float: ".nan", ".inf", "-.inf", or `{:?}` of a finite f64, i.e. an
+   optional '-', a digit, then digits, '.', 'e', 'E', '+', '-' — at most float_text_max characters (the longest
+   `{:?}` texts have 24: -2.2250738585072014e-308).  An assumption about Rust's `Debug for f64`, validated on every
+   float the check generates (wf_node is evaluated by the `rt` mode of the driver). *)
+Definition is_dec_digit (c : N) : bool := (48 <=? c) && (c <=? 57).
+Definition float_text_char (c : N) : bool := is_dec_digit c || existsb (N.eqb c) [46; 101; 69; 43; 45].
+Definition float_words : list str := [[46; 110; 97; 110]; [46; 105; 110; 102]; [45; 46; 105; 110; 102]].
+Definition float_text_max : N := 32.
+Definition float_text_ok (t : str) : bool :=
+  inl t float_words
+  || (match t with
+      | c :: r => if N.eqb c 45 then match r with d :: _ => is_dec_digit d | [] => false end else is_dec_digit c
+      | [] => false
+      end && forallb float_text_char t && (N.of_nat (length t) <=? float_text_max)).
 Definition in_i64_b (z : Z) : bool := ((i64_min <=? z) && (z <=? i64_max))%Z.
-(* the trees the property quantifies over: 64-bit integers, float leaves whose text is a float spelling, strings of
+(* the trees the property quantifies over: 64-bit integers, float leaves whose text is a short float spelling, strings of
    Unicode scalar values, mapping keys pairwise different (as a LinkedHashMap guarantees) *)
 Fixpoint wf_node (n : node) : bool :=
   match n with
   | NNull | NBool _ => true
   | NInt z => in_i64_b z
   | NFloat t => match parse_from_cow t with SFloat _ => true | _ => false end
+                && float_text_ok t
   | NStr s => forallb is_usv s
   | NSeq l => forallb wf_node l
   | NMap l => forallb (fun kv => wf_node (fst kv) && wf_node (snd kv)) l
